@@ -37,15 +37,43 @@ declarations:
     brief: name things
     description: "two lines of text\\nwithout a newline at the end"
 - decl: void over(int a)
+  doxygen:
+    brief: |
+      a brief of two lines,
+      this is the second
+    return: |
+      nothing, said
+      on two lines
 - decl: void over(double a)
+  doxygen:
+    brief: "two lines of brief\nwithout a newline at the end"
 - decl: double dflt(double a = 1.5, bool b = true)
   doxygen:
     brief: with defaults
 - decl: void arr(int *v +rank(1), int n +implied(size(v)))
 - decl: void report(int comm)
   cpp_if: ifdef HAVE_COMM
+  doxygen:
+    brief: report with a communicator
 - decl: void report()
   cpp_if: ifndef HAVE_COMM
+  doxygen:
+    brief: report without one
+    description: |
+      Only one of the two is compiled.
+# user statements that give a void function a result in the C wrapper (cstatements.rst, return_type)
+- decl: void countUp(int n)
+  fstatements:
+    c:
+      return_type: long
+      ret:
+      - return (long) n;
+- decl: void nameLen(const std::string &s)
+  fstatements:
+    c_buf:
+      return_type: int
+      ret:
+      - return (int) SHCXX_s.size();
 - decl: void gen(double v)
   fortran_generic:
   - decl: (float v)
